@@ -278,6 +278,20 @@ pub fn sample_text(sc: &Scenario, decisions: &[u8]) -> String {
 // ---------------------------------------------------------------------------------------------
 // parent side
 
+/// Reference processes see an EMPTY, read-only temp directory: whatever a changed library might
+/// persist there, a history-free reference must not find it.
+fn set_ref_tmpdir(work_dir: &str) {
+    let d = format!("{}/tmp-ref", work_dir);
+    let _ = std::fs::remove_dir_all(&d);
+    let _ = std::fs::create_dir_all(&d);
+    #[cfg(unix)]
+    {
+        use std::os::unix::fs::PermissionsExt;
+        let _ = std::fs::set_permissions(&d, std::fs::Permissions::from_mode(0o555));
+    }
+    crate::procs::set_global_child_env(vec![("TMPDIR".to_string(), d)]);
+}
+
 pub struct BatchArgs {
     pub verif_seed: u64,
     pub scenarios: u64,
@@ -361,6 +375,10 @@ fn spawn_worker(b: &BatchArgs, pool_path: &str, refs_path: &str, from: u64, to: 
     if let Some(shim) = crate::procs::clock_shim() {
         c.env("LD_PRELOAD", shim);
     }
+    // files a changed library might write stay inside the batch's scratch directory
+    let tmp = format!("{}/tmp", b.work_dir);
+    let _ = std::fs::create_dir_all(&tmp);
+    c.env("TMPDIR", tmp);
     // the library prints a warning to stderr when a CRS instance crosses 10 000 lookups
     let errlog = std::fs::OpenOptions::new().create(true).append(true).open(format!("{}/workers.stderr", b.work_dir));
     match errlog {
@@ -398,7 +416,9 @@ pub fn batch_main(b: &BatchArgs) -> BatchOut {
     // 2. pristine-process references (also the sandbox screen)
     let ops: Vec<Op> = pool.ops.iter().map(|p| p.op.clone()).collect();
     let tr = Instant::now();
+    set_ref_tmpdir(&b.work_dir);
     let refs = pristine_refs(&ops, b.workers);
+    crate::procs::set_global_child_env(Vec::new());
     out.ref_wall_s = tr.elapsed().as_secs_f64();
     for (i, r) in refs.iter().enumerate() {
         if r.status != "ok" {
@@ -737,6 +757,12 @@ pub struct WorldsOut {
     pub distinct_nontrivial: u64,
     pub cross_world_groups: u64,
     pub cross_world_log_mismatch: u64,
+    /// files that world processes created or modified in their temp directory (0 on a tree that
+    /// touches no file) and the disk faults applied to them between two worlds of a chain
+    #[serde(default)]
+    pub fs_files_written: u64,
+    #[serde(default)]
+    pub fs_faults: BTreeMap<String, u64>,
     pub violations: Vec<ViolationReport>,
     pub known_hits: BTreeMap<String, u64>,
     pub harness_errors: Vec<String>,
@@ -877,6 +903,106 @@ fn world_file(g: &GenCtx, tables: &[Vec<u32>; 4], verif_seed: u64, w: u64) -> (R
     (f, perm_ix, prefix, variant)
 }
 
+pub const CHAIN: u64 = 4;
+
+/// Seeded disk fault on one of the files a world process left in its temp directory (a crash at
+/// an arbitrary point of a write, as seen by the next process). Returns (files seen, fault kind).
+pub fn apply_disk_fault(tmp: &str, log: &str, verif_seed: u64, w: u64) -> (u64, Option<&'static str>) {
+    let mut files: Vec<String> = std::fs::read_to_string(log).unwrap_or_default().lines().map(|l| l.to_string()).filter(|p| p.starts_with(tmp)).collect();
+    files.sort();
+    files.dedup();
+    files.retain(|p| std::fs::metadata(p).map(|m| m.is_file()).unwrap_or(false));
+    let mut rng = crate::rng::Rng::new(derive(verif_seed, 0x6673_0000 + w));
+    if files.is_empty() || !rng.pct(60) {
+        return (files.len() as u64, None);
+    }
+    let p = rng.pick(&files).clone();
+    let len = std::fs::metadata(&p).map(|m| m.len()).unwrap_or(0);
+    let kind = match rng.below(4) {
+        0 => {
+            // torn write: the file ends somewhere in the middle
+            if len > 1 {
+                if let Ok(fh) = std::fs::OpenOptions::new().write(true).open(&p) {
+                    let _ = fh.set_len(1 + rng.below(len - 1));
+                }
+            }
+            "fs_torn_write"
+        }
+        1 => {
+            let _ = std::fs::remove_file(&p);
+            "fs_lost_write"
+        }
+        2 => {
+            // the tail never reached the disk: right length, zeros at the end
+            if let Ok(mut bytes) = std::fs::read(&p) {
+                let n = bytes.len();
+                let k = (1 + rng.below(n.max(1) as u64)) as usize;
+                for x in bytes[n - k.min(n)..].iter_mut() {
+                    *x = 0;
+                }
+                let _ = std::fs::write(&p, bytes);
+            }
+            "fs_zeroed_tail"
+        }
+        _ => {
+            if let Ok(mut bytes) = std::fs::read(&p) {
+                if !bytes.is_empty() {
+                    let i = rng.below(bytes.len() as u64) as usize;
+                    bytes[i] ^= 1 << rng.below(8);
+                    let _ = std::fs::write(&p, bytes);
+                }
+            }
+            "fs_bit_flip"
+        }
+    };
+    (files.len() as u64, Some(kind))
+}
+
+/// Replay unit of a violation that needs durable state: the worlds of one chain, in order, each
+/// in its own fresh process, sharing one temp directory, with the seeded disk faults in between.
+#[derive(Clone, Debug, Serialize, Deserialize)]
+pub struct ChainFile {
+    pub property: String,
+    pub engine: String,
+    pub profile: String,
+    pub verif_seed: u64,
+    pub first_world: u64,
+    pub worlds: Vec<ReplayFile>,
+    pub violation: Option<Violation>,
+    pub note: String,
+}
+
+/// Run a chain; returns the first violation with the index of its world.
+pub fn run_chain(c: &ChainFile, work_dir: &str) -> Option<(usize, Violation)> {
+    let tmp = format!("{}/tmp-chainreplay-{}", work_dir, c.first_world);
+    let _ = std::fs::remove_dir_all(&tmp);
+    let _ = std::fs::create_dir_all(&tmp);
+    let log = format!("{}/fslog-chainreplay-{}.txt", work_dir, c.first_world);
+    let mut found = None;
+    for (i, f) in c.worlds.iter().enumerate() {
+        let w = c.first_world + i as u64;
+        let _ = std::fs::remove_file(&log);
+        crate::procs::CHILD_ENV.with(|e| {
+            *e.borrow_mut() = vec![("TMPDIR".to_string(), tmp.clone()), ("A5SIM_FS_LOG".to_string(), log.clone())];
+        });
+        let path = format!("{}/chainreplay-world-{}.json", work_dir, w);
+        save(&path, f);
+        let r = exec_file_fresh(&path, "seeded");
+        crate::procs::CHILD_ENV.with(|e| e.borrow_mut().clear());
+        let _ = std::fs::remove_file(&path);
+        if let Ok(o) = r {
+            if let Some(v) = o.violation {
+                found = Some((i, v));
+                break;
+            }
+        }
+        apply_disk_fault(&tmp, &log, c.verif_seed, w);
+    }
+    let _ = std::fs::remove_dir_all(&tmp);
+    let _ = std::fs::remove_file(&log);
+    found
+}
+
 pub fn worlds_main(b: &WorldArgs) -> WorldsOut {
     use std::sync::atomic::{AtomicU64, Ordering};
     use std::sync::{Arc, Mutex};
@@ -889,7 +1015,9 @@ pub fn worlds_main(b: &WorldArgs) -> WorldsOut {
     out.prefix_lengths = vec![0; 5];
     let pool = pool::build(derive(b.verif_seed, 0x77706f6f6c), b.pool_size);
     let ops: Vec<Op> = pool.ops.iter().map(|p| p.op.clone()).collect();
+    set_ref_tmpdir(&b.work_dir);
     let refs = pristine_refs(&ops, b.workers);
+    crate::procs::set_global_child_env(Vec::new());
     out.pool_ops = pool.ops.len();
     out.pristine_refs = refs.iter().filter(|r| r.status == "ok").count();
     let known = load_known(&b.known_path);
@@ -905,31 +1033,61 @@ pub fn worlds_main(b: &WorldArgs) -> WorldsOut {
     let next = Arc::new(AtomicU64::new(0));
     type Res = (u64, usize, usize, &'static str, String, Result<crate::replay::ExecOut, String>, u64);
     let results: Arc<Mutex<Vec<Res>>> = Arc::new(Mutex::new(Vec::new()));
+    let fs_stats: Arc<Mutex<(u64, BTreeMap<String, u64>)>> = Arc::new(Mutex::new((0, BTreeMap::new())));
     std::thread::scope(|s| {
         for _ in 0..b.workers.max(1) {
             let next = next.clone();
             let results = results.clone();
             let g = &g;
             let tables = &tables;
+            let fs_stats = fs_stats.clone();
             s.spawn(move || loop {
-                let w = next.fetch_add(1, Ordering::Relaxed);
-                if w >= b.worlds {
+                // a CHAIN of consecutive worlds shares one private temp directory and runs
+                // sequentially: between two of them a seeded disk fault may hit a file the earlier
+                // one left behind (torn, lost or corrupted write - a crash at an arbitrary point)
+                let c = next.fetch_add(1, Ordering::Relaxed);
+                let first = c * CHAIN;
+                if first >= b.worlds {
                     break;
                 }
-                let (f, perm, prefix, variant) = world_file(g, tables, b.verif_seed, w);
-                let path = format!("{}/world-{}.json", b.work_dir, w);
-                save(&path, &f);
-                let r = exec_file_fresh(&path, "seeded");
-                // worlds are comparable (same decisions expected) only if they also agree on the probe flag
-                let main_hash = f.scenarios.last().map(|s| s.hash64() ^ (s.probe as u64)).unwrap_or(0);
-                if !matches!(&r, Ok(o) if o.violation.is_some()) {
-                    let _ = std::fs::remove_file(&path);
+                let tmp = format!("{}/tmp-chain-{}", b.work_dir, c);
+                let _ = std::fs::remove_dir_all(&tmp);
+                let _ = std::fs::create_dir_all(&tmp);
+                let log = format!("{}/fslog-{}.txt", b.work_dir, c);
+                for w in first..(first + CHAIN).min(b.worlds) {
+                    let _ = std::fs::remove_file(&log);
+                    crate::procs::CHILD_ENV.with(|e| {
+                        *e.borrow_mut() = vec![("TMPDIR".to_string(), tmp.clone()), ("A5SIM_FS_LOG".to_string(), log.clone())];
+                    });
+                    let (f, perm, prefix, variant) = world_file(g, tables, b.verif_seed, w);
+                    let path = format!("{}/world-{}.json", b.work_dir, w);
+                    save(&path, &f);
+                    let r = exec_file_fresh(&path, "seeded");
+                    crate::procs::CHILD_ENV.with(|e| e.borrow_mut().clear());
+                    let main_hash = f.scenarios.last().map(|s| s.hash64() ^ (s.probe as u64)).unwrap_or(0);
+                    if !matches!(&r, Ok(o) if o.violation.is_some()) {
+                        let _ = std::fs::remove_file(&path);
+                    }
+                    results.lock().unwrap().push((w, perm, prefix, variant, path, r, main_hash));
+                    // disk faults on what this world wrote
+                    let (n_files, kind) = apply_disk_fault(&tmp, &log, b.verif_seed, w);
+                    let mut st = fs_stats.lock().unwrap();
+                    st.0 += n_files;
+                    if let Some(k) = kind {
+                        *st.1.entry(k.to_string()).or_insert(0) += 1;
+                    }
                 }
-                results.lock().unwrap().push((w, perm, prefix, variant, path, r, main_hash));
+                let _ = std::fs::remove_dir_all(&tmp);
+                let _ = std::fs::remove_file(&log);
             });
         }
     });
     out.run_wall_s = trun.elapsed().as_secs_f64();
+    {
+        let st = fs_stats.lock().unwrap();
+        out.fs_files_written = st.0;
+        out.fs_faults = st.1.clone();
+    }
     let mut results = std::mem::take(&mut *results.lock().unwrap());
     results.sort_by_key(|r| r.0);
     let mut orders = BTreeSet::new();
@@ -974,7 +1132,27 @@ pub fn worlds_main(b: &WorldArgs) -> WorldsOut {
                             f.scenarios.truncate(o.scenario_index.map(|i| i + 1).unwrap_or(f.scenarios.len()));
                             f.decisions.truncate(f.scenarios.len());
                             save(&path, &f);
-                            out.violations.push(minimise_and_store(f, &path, &b.replay_dir, &b.work_dir, None));
+                            let alone = matches!(exec_file_fresh(&path, "strict"), Ok(o2) if o2.violation.as_ref().map(|x| x.same_class(v)).unwrap_or(false));
+                            if alone {
+                                out.violations.push(minimise_and_store(f, &path, &b.replay_dir, &b.work_dir, None));
+                            } else {
+                                // needs what earlier worlds of its chain left on disk: the chain is the replay unit
+                                let first = (w / CHAIN) * CHAIN;
+                                let chain = ChainFile {
+                                    property: "C13".into(),
+                                    engine: "Wchain".into(),
+                                    profile: profile_name(),
+                                    verif_seed: b.verif_seed,
+                                    first_world: first,
+                                    worlds: (first..=w).map(|x| world_file(&g, &tables, b.verif_seed, x).0).collect(),
+                                    violation: Some(v.clone()),
+                                    note: "worlds of one chain, each in a fresh process, sharing a temp directory; seeded disk faults between them".into(),
+                                };
+                                let cpath = format!("{}/C13-Wchain-{}-{}.json", b.replay_dir, profile_name(), w);
+                                std::fs::write(&cpath, serde_json::to_string(&chain).unwrap()).expect("write chain file");
+                                let confirmed = matches!(run_chain(&chain, &b.work_dir), Some((_, v2)) if v2.same_class(v));
+                                out.violations.push(ViolationReport { replay: cpath, line: format!("{} (needs the files earlier processes of the chain left behind)", v.line()), minimised: false, replay_confirmed: confirmed, steps_before: 0, steps_after: 0, shrink_evals: 0 });
+                            }
                         }
                     }
                 }
